@@ -441,6 +441,13 @@ func (p *Parser) ParseMemberExpression(left ast.Expression) ast.Expression {
 		Object:   left,
 		Computed: false,
 	}
+	// a literal, a bracket or an operator cannot be a property name
+	switch p.PeekToken.Type {
+	case token.INT, token.FLOAT, token.STRING, token.RAW_STRING, token.LPAREN, token.LBRACKET, token.LBRACE,
+		token.NOT, token.MINUS, token.INCREMENT, token.DECREMENT, token.FUNCTION:
+		p.AddErrorAtToken("property name expected", p.PeekToken)
+		return nil
+	}
 	p.NextToken()
 	exp.Property = p.expressionParseFn(p, MEMBER)
 	return exp
